@@ -183,6 +183,15 @@ add("C17", "model_checking",
     "bounded-exhaustive enumeration of class programs on the real implementation: before/after differential + reference model",
     "DESIGN.md section 5 C17")
 
+add("C09", "model_checking",
+    "Every body of the grammar context[call] (37 contexts x 8 call forms x 4 special names x 5 function kinds) is built twice from one source "
+    "text - registered on a real Ovld (rewritten by the library) and exec'd with the special names bound to ordinary callables of a "
+    "reference interpreter - and the two are compared on acceptance, result, exception, order / multiplicity of argument evaluation, "
+    "generator laziness, defaults, and file / line of the raising frame.",
+    "Trusted: the reference interpreter's ordinary callables (never the library's dispatcher); nesting depth 1 of the grammar.",
+    "bounded-exhaustive enumeration of a body grammar, differential execution of rewritten vs un-rewritten source",
+    "DESIGN.md section 5 C09")
+
 ALL = [f"C{i:02d}" for i in range(1, 21)]
 REASON_PENDING = "check not built yet in this round (planned: DESIGN.md section 5); not claimed until its machinery exists"
 
